@@ -13,6 +13,7 @@ pub mod c16;
 pub mod c17;
 pub mod c18;
 pub mod replays;
+pub mod standalone;
 pub mod tseq;
 
 /// replayers for families other than table sequences
